@@ -1,6 +1,7 @@
 package main
 
 import (
+	"bytes"
 	"encoding/json"
 	"fmt"
 	"math/rand"
@@ -8,6 +9,8 @@ import (
 	"path/filepath"
 	"strings"
 	"time"
+	"unicode/utf16"
+	"unicode/utf8"
 
 	"github.com/Vedant9500/WTF/internal/database"
 	apperrors "github.com/Vedant9500/WTF/internal/errors"
@@ -129,6 +132,22 @@ func c10File(r *rand.Rand) (kind string, data []byte, wellFormed bool) {
 		data, err := marshalCommands(cmds)
 		if err != nil {
 			return "entries", []byte("[]"), true
+		}
+		if len(cmds)%5 == 3 && utf8.Valid(data) && !bytes.ContainsRune(data, 0) {
+			// the same well-formed list in the other encodings a YAML stream may use: UTF-16 with a byte order mark
+			be := len(cmds)%2 == 0
+			out := []byte{0xff, 0xfe}
+			if be {
+				out = []byte{0xfe, 0xff}
+			}
+			for _, u := range utf16.Encode([]rune(string(data))) {
+				if be {
+					out = append(out, byte(u>>8), byte(u))
+				} else {
+					out = append(out, byte(u), byte(u>>8))
+				}
+			}
+			return "entries", out, true
 		}
 		return "entries", data, true
 	case x < 65: // valid YAML of another shape
